@@ -1270,6 +1270,9 @@ impl InstrFormat for TimelineFormat08 {
     }
 
     fn write_instr(&self, f: &mut BinWriter, emitter: &dyn Emitter, instr: &RawInstr) -> WriteResult {
+        if instr.extra_arg.unwrap_or(0) != 0 {
+            return Err(emitter.as_sized().emit(error!("timeline instructions have no arg0 in this game")));
+        }
         f.write_i32(instr.time as _)?;
         f.write_u16(instr.opcode)?;
         f.write_u8(llir::fit_instr_field(emitter, "size", self.instr_size(instr))?)?;
